@@ -13,19 +13,39 @@ ADV_OF_CFG = {0: [0], 1: [0, 1, 2, 3], 2: [1], 3: [2], 4: [3], 5: [0]}
 
 
 def recv_cases(cfg):
+    """measured on the (4x oversubscribed) shared machine: 130..330 s and 0.7..1.9 GB per case, independent of LEN (the cost is the set-up of the
+    real link layer with symbolic addresses / white list, not the request) -> the quick tier is a selection of boundary cases"""
     def f(tier):
         cs = []
-        def add(adv, ln, mode): cs.append({'CFG': cfg, 'ADV': adv, 'LEN': ln, 'MODE': mode})
+        def add(adv, ln, mode, wln=3, own=0): cs.append({'CFG': cfg, 'ADV': adv, 'LEN': ln, 'MODE': mode, 'WLN': wln, 'OWN': own})
         for adv in ADV_OF_CFG[cfg]:
             if tier == 'quick':
-                lens0 = [0, 2, 14, 35, 36, 37] if cfg in (0, 1) else ([35, 36, 37] if cfg in (2, 5) else [36])
-                lens1 = [36, 35, 37] if (adv in (0, 1) and cfg in (0, 1, 2)) else [36]
+                if cfg == 0:
+                    for ln in (2, 35, 36, 37): add(adv, ln, 0)
+                    add(adv, 36, 0, 0); add(adv, 36, 1); add(adv, 36, 2); add(adv, 36, 3); add(adv, 36, 3, 0)
+                elif cfg == 1:
+                    add(adv, 36, 0)
+                    if adv in (0, 1): add(adv, 36, 1)
+                    if adv == 1: add(adv, 37, 0); add(adv, 36, 1, 0)
+                elif cfg == 2:
+                    add(adv, 36, 0); add(adv, 36, 1)
+                else:
+                    add(adv, 36, 1)
             else:
-                lens0 = list(range(0, 42))
-                lens1 = list(range(0, 42))
-            for ln in lens0: add(adv, ln, 0)
-            for ln in lens1: add(adv, ln, 1)
-            add(adv, 36, 2)
+                if cfg == 0:
+                    for ln in range(0, 42): add(adv, ln, 0)
+                    for ln in (0, 2, 14, 35, 36, 37, 41): add(adv, ln, 1)
+                    add(adv, 36, 0, 0); add(adv, 36, 1, 0); add(adv, 36, 2); add(adv, 36, 3); add(adv, 36, 3, 0)
+                    for own in (1, 2):
+                        for ln in (35, 36, 37): add(adv, ln, 0, 3, own)
+                        add(adv, 36, 1, 3, own)
+                elif cfg == 1:
+                    for ln in (0, 2, 14, 35, 36, 37, 39): add(adv, ln, 0)
+                    for ln in (35, 36, 37): add(adv, ln, 1)
+                    add(adv, 36, 0, 0); add(adv, 36, 2)
+                else:
+                    for ln in (35, 36, 37): add(adv, ln, 0)
+                    add(adv, 36, 1); add(adv, 36, 1, 0); add(adv, 36, 2)
         flt = os.environ.get('VF_C25_FILTER')          # debugging aid: "ADV=1,LEN=36,MODE=0"
         if flt:
             want = dict(kv.split('=') for kv in flt.split(','))
@@ -39,11 +59,12 @@ def scan_cases(tier):
 
 
 def mk_recv(cfg):
-    return Harness('c25_recv_cfg%d' % cfg, LLC[cfg], 'harness/c25_recv.c', recv_cases(cfg), unwind=50, timeout=900,
-                   description='handle_adv_receive() / adv_received() of the real link layer on a symbolic received buffer (size by case split), symbolic own address, '
+    return Harness('c25_recv_cfg%d' % cfg, LLC[cfg], 'harness/c25_recv.c', recv_cases(cfg), unwind=50, timeout=1800,
+                   description='handle_adv_receive() / adv_received() of the real link layer on a symbolic received buffer (size by case split), own address (default static random address; thorough tier also a public and a symbolic address), '
                                'directed target, white list and filter switches',
-                   bounds='buffer sizes quick: 0, 2, 14, 35, 36, 37 (handle_adv_receive; 35..37 / 36 only for the smaller option sets) and 35, 36, 37 (adv_received); thorough: every size 0..41; '
-                          'every byte of the buffer symbolic incl. PDU type, TxAdd / RxAdd and the length field; white list of 3 entries, 0..3 in use')
+                   bounds='buffer sizes quick: 2, 35, 36, 37 (single type advertiser, handle_adv_receive), 36 / 37 for the other option sets, 36 for adv_received; thorough: every size 0..41 '
+                          '(single type advertiser), boundary sizes for the others; every byte of the buffer symbolic incl. PDU type, TxAdd / RxAdd and the length field; '
+                          'white list: 3 arbitrary entries (possibly equal) in use, or empty (case split)')
 
 
 def harnesses(tier_all=True):
@@ -68,10 +89,12 @@ PROPERTY = Property(
                'no_white_list::impl', 'link_layer::run / start_advertising_impl', 'channel_map::reset', 'link_layer::parse_timing_parameters_from_connect_request',
                'nrf52_radio_base::schedule_advertisment', 'nrf52_radio_base::radio_interrupt_handler (advertising states)', 'nrf52_radio_base::is_valid_scan_request'],
     bounds='6 link layer option sets (single type advertisers for the 4 advertising types, one advertiser with all 4 types, defaults without white list); received buffer '
-           'of every size 0..41 bytes (quick: boundary sizes) with all bytes symbolic; white list with 3 entries; nRF52 radio with both PDU layouts',
-    assumptions=['stub scheduled radio for the link layer part: records schedule_advertisment / schedule_connection_event; the radio delivers received advertising channel PDUs through '
+           'of every size 0..41 bytes for the single type advertiser in the thorough tier, boundary sizes 35 / 36 / 37 (and 0, 2, 14, 39) otherwise, with all bytes symbolic; white list with 3 entries or empty; nRF52 radio with both PDU layouts',
+    assumptions=['own device address: the default static random address of the link layer (c0:0f:15:08:11:47, derived from the radio seed) in the quick tier; thorough tier additionally '
+                 'a concrete public address and a fully symbolic address + type for the single type advertiser (symbolic 7 byte address objects cost minutes per case: measured 130..900+ s)',
+                 'stub scheduled radio for the link layer part: records schedule_advertisment / schedule_connection_event; the radio delivers received advertising channel PDUs through '
                  'adv_received( read_buffer ) with the buffer sized to the received PDU (exact-size object)',
-                 'white list content is set through raw members (number of used entries 0..3, entries arbitrary, possibly equal); its add/remove semantics are C26',
+                 'white list content is set through raw members (3 arbitrary entries that may be equal = lists of 1..3 different devices, or no entry: case split); its add/remove semantics are C26',
                  'length field: the 6 bit field of the 4.x PDU layout is compared (the implementation masks with 0x3f); the two upper bits are not constrained (permissive)',
                  'nRF52 part: Hardware class replaced by a stub (register level behaviour of the RADIO / TIMER / AAR peripherals is outside); the link layer scan filter '
                  '(CallBacks::is_scan_request_in_filter) answers arbitrarily and records the question; own address and address type are the ones in the scan response PDU',
